@@ -12,7 +12,6 @@
 package main
 
 import (
-	"bytes"
 	"fmt"
 	"os"
 	"reflect"
@@ -319,5 +318,3 @@ func checkUnmarshal(r *report.Run, t *value.Type, ti gocql.TypeInfo, proto int, 
 			ts, proto, hexOrNull(enc), goName(gt), pretty(holder.Elem()), gotAbs, v, exp, lt, lg, lw), replay)
 	}
 }
-
-var _ = bytes.Equal
